@@ -115,11 +115,19 @@ def parseLabels? (s : String) : Option (Option (List Int)) :=
   match s.splitOn ":" with
   | ["N", _, _] => some none
   | ["N", _, _, ls] => (parseIntList? ls).map some
+  | ["N", _, _, ls, _] => if ls == "none" then some none else (parseIntList? ls).map some
+  | _ => some none
+
+/-- time labels of the Series cells of a nested start frame (5th field of an `N` token) -/
+def parseTl? (s : String) : Option (Option (List Int)) :=
+  match s.splitOn ":" with
+  | ["N", _, _, _, tl] => (parseIntList? tl).map some
   | _ => some none
 
 def stripLabels (s : String) : String :=
   match s.splitOn ":" with
   | ["N", a, b, _] => ":".intercalate ["N", a, b]
+  | ["N", a, b, _, _] => ":".intercalate ["N", a, b]
   | _ => s
 
 def parseHop? (s : String) : Option (Hop Name) :=
@@ -180,11 +188,13 @@ def applyHop' (h : Hop Name) (r : Rep Name V) : Except Err (Rep Name V) :=
 
 /-- first hop from a nested frame with row labels: only the converters to the multi-index frame /
 long table look at them -/
-def applyHopIx (labels : Option (List Int)) (h : Hop Name) (r : Rep Name V) : Except Err (Rep Name V) :=
-  match labels, h, r with
-  | some ls, .nm i t, .nested N => Rep.mi <$> fromNestedToMIIx ls N i t
-  | some ls, .nl i t d, .nested N => Rep.long <$> fromNestedToLongIx reservedName ls N i t d
-  | _, h, r => applyHop' h r
+def applyHopIx (lt : Option (List Int) × Option (List Int)) (h : Hop Name) (r : Rep Name V) : Except Err (Rep Name V) :=
+  match lt.2, lt.1, h, r with
+  | some tl, ls, .nm i t, .nested N => Rep.mi <$> fromNestedToMITx ls tl N i t
+  | some tl, ls, .nl i t d, .nested N => Rep.long <$> fromNestedToLongTx reservedName ls tl N i t d
+  | none, some ls, .nm i t, .nested N => Rep.mi <$> fromNestedToMIIx ls N i t
+  | none, some ls, .nl i t d, .nested N => Rep.long <$> fromNestedToLongIx reservedName ls N i t d
+  | _, _, h, r => applyHop' h r
 
 def runPathFrom : List (Hop Name) → Rep Name V → List String
   | [], _ => []
@@ -193,7 +203,7 @@ def runPathFrom : List (Hop Name) → Rep Name V → List String
     | .error e => [showErr e]
     | .ok r' => showRep r' :: runPathFrom hs r'
 
-def runPath (labels : Option (List Int)) : List (Hop Name) → Rep Name V → List String
+def runPath (labels : Option (List Int) × Option (List Int)) : List (Hop Name) → Rep Name V → List String
   | [], _ => []
   | h :: hs, r =>
     match applyHopIx labels h r with
@@ -206,23 +216,23 @@ def histLoop : List String → List String → String
   | [], acc => showList " ; " acc.reverse
   | [_], _ => "bad-op"
   | rep :: hop :: rest, acc =>
-    match parseRep? (stripLabels rep), parseLabels? rep, parseHop? hop with
-    | some r, some ls, some h => histLoop rest (showList " > " (runPath ls [h] r) :: acc)
-    | _, _, _ => "bad-op"
+    match parseRep? (stripLabels rep), parseLabels? rep, parseTl? rep, parseHop? hop with
+    | some r, some ls, some tl, some h => histLoop rest (showList " > " (runPath (ls, tl) [h] r) :: acc)
+    | _, _, _, _ => "bad-op"
 
 def showBoolList (l : List Bool) : String := showList "," (l.map showBool)
 
 def handle (toks : List String) : String :=
   match toks with
   | "path" :: rep :: hops =>
-    match parseRep? (stripLabels rep), parseLabels? rep, hops.mapM parseHop? with
-    | some r, some ls, some hs => showList " > " (runPath ls hs r)
-    | _, _, _ => "bad-op"
-  | "pathd" :: rep :: dhop :: hops =>
-    match parseRep? (stripLabels rep), parseLabels? rep, parseHop? dhop, hops.mapM parseHop? with
-    | some r, some ls, some d, some hs =>
-      showList " > " (runPath ls hs r) ++ " || " ++ showList " > " (runPath ls [d] r)
+    match parseRep? (stripLabels rep), parseLabels? rep, parseTl? rep, hops.mapM parseHop? with
+    | some r, some ls, some tl, some hs => showList " > " (runPath (ls, tl) hs r)
     | _, _, _, _ => "bad-op"
+  | "pathd" :: rep :: dhop :: hops =>
+    match parseRep? (stripLabels rep), parseLabels? rep, parseTl? rep, parseHop? dhop, hops.mapM parseHop? with
+    | some r, some ls, some tl, some d, some hs =>
+      showList " > " (runPath (ls, tl) hs r) ++ " || " ++ showList " > " (runPath (ls, tl) [d] r)
+    | _, _, _, _, _ => "bad-op"
   | "hist" :: rest => histLoop rest []
   | ["pred", rep] =>
     match parseRep? rep with
